@@ -37,6 +37,18 @@ Arguments GOk {A} a.
 Arguments GErr {A} e.
 Definition herr {A} (c : N) : gres A := GErr {| ecode := c; eleak := false |}.
 
+(** OS errors.  An *fs.PathError or *os.LinkError names the host path in its text;
+    [strip_path] (fs_local.go stripPath) removes it; [err_from_os] (errFromOS)
+    strips it and chooses the status (ENOENT and ENOTDIR: 404); [wrap_http]
+    (NewHTTPError / &HTTPError{code, err}) keeps the inner text. *)
+Inductive oserr := ENOENT | EEXIST.
+Definition raw_os_error (e : oserr) : gerr := {| ecode := 500; eleak := true |}.
+Definition strip_path (e : gerr) : gerr := {| ecode := ecode e; eleak := false |}.
+Definition err_from_os (e : oserr) : gerr :=
+  let s := strip_path (raw_os_error e) in
+  {| ecode := match e with ENOENT => 404 | EEXIST => 500 end; eleak := eleak s |}.
+Definition wrap_http (c : N) (inner : gerr) : gerr := {| ecode := c; eleak := eleak inner |}.
+
 (** * Requests *)
 Inductive dest_hdr :=
 | DestAbsent            (* no Destination header *)
@@ -129,7 +141,7 @@ Section Served.
     | GOk segs =>
       match geto sb (hp segs) with
       | Some n => GOk (segs, n)
-      | None => herr 404
+      | None => GErr (err_from_os ENOENT)
       end
     end.
 
@@ -176,7 +188,7 @@ Section Served.
       | Some e => (sb, err_resp e)
       | None =>
         if is_dir cur || match segs with [] => true | _ => false end then (sb, err_resp {| ecode := 405; eleak := false |})
-        else if negb (is_dir (geto sb (hp (parent segs)))) then (sb, err_resp {| ecode := 409; eleak := false |})
+        else if negb (is_dir (geto sb (hp (parent segs)))) then (sb, err_resp (wrap_http 409 (strip_path (raw_os_error ENOENT))))
         else if body_fails r then (sb, err_resp {| ecode := 500; eleak := false |})
         else
           match seto sb (hp segs) (File (body r) (stamp r)) with
@@ -209,17 +221,12 @@ Section Served.
       match segs_of (rpath r) with
       | GErr e => (sb, err_resp e)
       | GOk segs =>
-        if exists_ (geto sb (hp segs)) then (sb, err_resp {| ecode := 405; eleak := false |})
-        else
-          match hp segs with
-          | [] => (sb, err_resp {| ecode := 405; eleak := false |}) (* the sandbox top always exists *)
-          | _ =>
-            if negb (is_dir (geto sb (parent (hp segs)))) then (sb, err_resp {| ecode := 409; eleak := false |})
-            else match seto sb (hp segs) (Dir []) with
-                 | Some sb' => (Some sb', resp0 201)
-                 | None => (sb, err_resp {| ecode := 500; eleak := false |})
-                 end
-          end
+        if exists_ (geto sb (hp segs)) then (sb, err_resp (wrap_http 405 (strip_path (raw_os_error EEXIST))))
+        else if negb (is_dir (geto sb (parent (hp segs)))) then (sb, err_resp (wrap_http 409 (err_from_os ENOENT)))
+        else match seto sb (hp segs) (Dir []) with
+             | Some sb' => (Some sb', resp0 201)
+             | None => (sb, err_resp {| ecode := 500; eleak := false |})
+             end
       end.
 
   (** checkCopyMove + the destination handling shared by Copy and Move.
@@ -234,7 +241,7 @@ Section Served.
       | GOk ds =>
         if is_prefix ss ds || is_prefix ds ss then herr 403
         else match geto sb (hp ss) with
-             | None => herr 404
+             | None => GErr (err_from_os ENOENT)
              | Some n =>
                if negb (is_dir (geto sb (hp (parent ds)))) then herr 409
                else if exists_ (geto sb (hp ds)) then
